@@ -74,16 +74,16 @@ Fixpoint insert_rows (krs : list (key * row)) (t : tbl) : option tbl :=
   | (k, r) :: krs' => if mem k t then None else insert_rows krs' (insert k r t)
   end.
 
-(* key recovery (insert_executor.go getPkValues, single-column key):
-   key column listed: the literal / bound values of that column, one per VALUES row;
+(* key recovery (insert_executor.go getPkValues):
+   key columns listed: the literal / bound values of those columns, one key per VALUES row;
    key column omitted (auto increment): LastInsertId when one row was inserted; a batch is not recovered (the code panics) *)
-Definition recover (listed : option (list value)) (last_id : Z) (nrows : nat) : option (list key) :=
+Definition recover (listed : option (list key)) (last_id : Z) (nrows : nat) : option (list key) :=
   match listed with
-  | Some vals => Some (map (fun v => [v]) vals)
+  | Some ks => Some ks
   | None => if Nat.eqb nrows 1 then Some [[VInt last_id]] else None
   end.
 
-Definition at_insert (trk : list nat) (krs : list (key * row)) (listed : option (list value)) (last_id : Z) (t : tbl) : res :=
+Definition at_insert (trk : list nat) (krs : list (key * row)) (listed : option (list key)) (last_id : Z) (t : tbl) : res :=
   match insert_rows krs t with
   | None => Err EDupKey
   | Some t' =>
@@ -101,15 +101,15 @@ Definition valid_key_value (v : value) : bool :=
 Fixpoint gen_keys (next : Z) (n : nat) : list key :=
   match n with O => [] | S n' => [VInt next] :: gen_keys (next + 1)%Z n' end.
 
-Definition assigned_keys (listed : option (list value)) (last_id : Z) (nrows : nat) : list key :=
+Definition assigned_keys (listed : option (list key)) (last_id : Z) (nrows : nat) : list key :=
   match listed with
-  | Some vals => map (fun v => [v]) vals
+  | Some ks => ks
   | None => gen_keys last_id nrows
   end.
 
-Definition insert_supported (listed : option (list value)) (nrows : nat) : bool :=
+Definition insert_supported (listed : option (list key)) (nrows : nat) : bool :=
   match listed with
-  | Some vals => forallb valid_key_value vals && Nat.eqb (length vals) nrows
+  | Some ks => forallb (forallb valid_key_value) ks && Nat.eqb (length ks) nrows
   | None => Nat.eqb nrows 1
   end.
 
